@@ -259,7 +259,7 @@ def list_ops(w):
     op("pop()", lambda: L.pop())
     for sl in ((0, 1, None), (1, None, None), (None, None, None), (None, None, 2), (None, None, -1), (1, 1, None)):
         op("del[%s:%s:%s]" % sl, lambda sl=sl: L.__delitem__(slice(*sl)))
-        for vi, vals in enumerate(([], [cs[0]], [cs[2], cs[1]], [cs[0], cs[1], cs[2]])):
+        for vi, vals in enumerate(([], [cs[0]], [cs[2], cs[1]], [cs[0], cs[1], cs[2]], [cs[2], cs[2]])):
             op("[%s:%s:%s]=%s" % (sl + (["c%d" % cs.index(v) for v in vals],)), lambda sl=sl, vals=vals: L.__setitem__(slice(*sl), list(vals)))
     op("extend([c0,c1])", lambda: L.extend([cs[0], cs[1]]))
     op("extend([c2,c2])", lambda: L.extend([cs[2], cs[2]]))
